@@ -51,7 +51,9 @@ def one_layout(cid, lay, B, rng, which):
                                                vrnt_chrgrp=chrgrp, vrnt_phypos=np.arange(1, M + 1, dtype="int64"),
                                                vrnt_genpos=genpos, vrnt_xoprob=np.full(M, 0.1))
                 pg.group_vrnt()
-                gm = DenseAdditiveLinearGenomicModel(beta=np.zeros((1, T)), u_misc=None, u_a=u,
+                # the model may carry miscellaneous random effects next to the marker effects (they are no marker effects)
+                umisc = None if rng.random() < 0.6 else np.array([[rng.randrange(-9, 10) for _ in range(T)] for _ in range(rng.randrange(1, 4))], dtype=float)
+                gm = DenseAdditiveLinearGenomicModel(beta=np.zeros((1, T)), u_misc=umisc, u_a=u,
                                                      trait=np.array(["t%d" % k for k in range(T)], dtype=object))
                 hm = OHV._calc_haplomat(pg, gm, B)
                 r, ok = ints(hm)
